@@ -6,6 +6,7 @@
         let mut idx: Vec<usize> = Vec::new();
         let mut radix: Vec<usize> = Vec::new();
         let mut tried: u64 = 0;
+        let mut rng: u64 = 0x9E3779B97F4A7C15;
         loop {
             GRID_LOG.with(|l| *l.borrow_mut() = (Vec::new(), Vec::new()));
             let start = idx.clone();
@@ -29,13 +30,22 @@
             }
             if radix.is_empty() || tried >= budget { break; }
             if idx.len() < radix.len() { idx.resize(radix.len(), 0); }
-            let mut k = 0;
-            loop {
-                if k == idx.len() { println!("VERIF-GRID-NONE: {} combinations", tried); return; }
-                idx[k] += 1;
-                if idx[k] < radix[k] { break; }
-                idx[k] = 0;
-                k += 1;
+            if tried < budget / 2 {
+                // first half of the budget: odometer (exhaustive from the first draws on)
+                let mut k = 0;
+                loop {
+                    if k == idx.len() { println!("VERIF-GRID-NONE: {} combinations (exhaustive)", tried); return; }
+                    idx[k] += 1;
+                    if idx[k] < radix[k] { break; }
+                    idx[k] = 0;
+                    k += 1;
+                }
+            } else {
+                // second half: deterministic pseudo-random combinations (an odometer never reaches the later draws)
+                for k in 0..idx.len() {
+                    rng = rng.wrapping_mul(6364136223846793005).wrapping_add(1442695040888963407);
+                    idx[k] = ((rng >> 33) as usize) % radix[k].max(1);
+                }
             }
         }
         println!("VERIF-GRID-NONE: {} combinations", tried);
